@@ -218,3 +218,21 @@ func init() {
 func zeroGlobal(it *Interp, g *ssa.Global) Value { return zero(deref(g.Type())) }
 
 func cmdCheckStub() { fmt.Println() }
+
+func (it *Interp) loadVector(path string) error {
+	data, err := os.ReadFile(path)
+	if err != nil {
+		return err
+	}
+	var doc struct {
+		Vector []replayItem `json:"vector"`
+	}
+	if err := json.Unmarshal(data, &doc); err != nil {
+		return err
+	}
+	it.vector = doc.Vector
+	if it.vector == nil {
+		it.vector = []replayItem{}
+	}
+	return nil
+}
